@@ -5,20 +5,28 @@ Theorems: coq/Props/C17.v
 
 One case = one world of harness/setupsim.py (one stack, products p1..pn with random tables) plus
   * a top product whose table is decorated with comments, blank lines, several setup blocks, brace blocks;
-  * BUILD   : `setup top v` with the real code in a fresh environment (decisions and reverse calls spied on);
-  * EXPAND  : the real eups.expandTableFile (driven like `eups expandtable`: Eups + selectVRO, input stream,
-              output stream, productList, force, toplevelName) in the build environment;
-              compared, after whitespace normalisation, with the text rendered by the model from the
+  * BUILD   : `setup top v` with the real code in a fresh environment (decisions and reverse calls spied on); the
+              worlds include optional dependencies whose own setup fails part-way - after their SETUP_ variable was
+              recorded - and is rolled back (a table line using an undefined ${VARIABLE}, a required product that
+              does not exist), directly below the top product and deeper.  "What was set up" is, everywhere below,
+              what the SETUP_ variables of the environment say after this setup.  The build is also replayed through
+              Model/Setup.v (real decisions fed) and the two final environments compared;
+  * EXPAND  : the real eups.expandTableFile in the build environment, under two protocols:
+                python API        the Eups instance that did the setup expands the table (it still remembers the
+                                  products it started and rolled back);
+                eups expandtable  a fresh instance (Eups + selectVRO, input stream, output stream, productList, force,
+                                  toplevelName), as the command line does;
+              each compared, after whitespace normalisation, with the text rendered by the model from the
               classified lines, the build environment, the world as the real parser sees it and the raw
-              dependency lists the real getDependencies returns for the table's own lines;
+              dependency lists the real getDependencies returns (to that instance) for the table's own lines;
   * EVOLVE  : newer versions declared, `current` moved or removed;
   * REPLAY  : the expanded text written over the installed table (what `expandtable -i` does), then
               `setup --exact top v` in a fresh environment; compared with Model/Setup.v run on the evolved
               world with the decision stream *forced* to the explicit versions of the exact block; the
               decisions the real resolver took are compared with the forced ones.
-Oracles (the property text, evaluated on what the real code produced):
-  pins-foreign     a line of the exact block names a version that was not set up at expansion time
-                   (nor supplied through the productList)
+Oracles (the property text, evaluated on what the real code produced; the first three on the text of each protocol):
+  pins-foreign     a line of the exact block names a version that was not set up at expansion time - not recorded in
+                   the SETUP_ variables the setup left - nor supplied through the productList
   other-lines      the non-setup lines of the expanded text are the input's, unchanged and in order
   inexact          the non-exact branch carries every setup line with its original constraint
   exact-reproduces-missing / -extra   conflict-free build => the replay records every build-time version / nothing else
@@ -963,16 +971,25 @@ def setup_ctx(ctx):
     ctx.rule = ("random one-stack worlds of 3-5 products x 1-3 versions (harness/setupsim.py: bare / versioned / "
                 "expression / -j, required and optional dependencies, diamonds with conflicting versions, products "
                 "without a current version); the top table is spread over several setup blocks with comments, blank "
-                "lines, brace blocks, relative versions, unknown products; one case in 16 from a directed family (an optional "
+                "lines, brace blocks, relative versions, unknown products; in one random world in five one product below the top "
+                "one is made to fail part-way (a table line with an undefined ${VARIABLE} or a required product that does not "
+                "exist, at a random position) and most lines asking for it made optional; one case in 16 from a directed "
+                "family (an optional "
                 "dependency that cannot be set up, listed before a required sibling sharing a dependency that has its own); "
+                "one case in 8 from a second directed family (an optional link at depth 1, 2 or 3 below the top product "
+                "under which the setup of a product fails part-way, after it and its own dependencies were recorded, and is "
+                "rolled back); every table is expanded twice, by the Eups instance that did the setup and by a fresh one; "
                 "productList overrides (12%) and --force "
                 "(10%); the database then gains newer versions and current moves; a case is non-trivial when the build "
                 "succeeded and set up at least two products; distinct = distinct (tables, top product, productList)")
     ctx.trusted_base = common.COMMON_TRUSTED + [
         "level A of the table scanner in python (harness/c17.py classify: the regular expressions of expandTableFile and "
         "its subSetup argument loop, one setup command per line, product name first); the raw dependency lists fed to "
-        "the model are those the real getDependencies(setup=False) returns for the table's own lines; the world fed to "
-        "Model/Setup.v is what the real table parser returns for every declared product",
+        "the model are those the real getDependencies(setup=False) returns for the table's own lines (asked of the same "
+        "instance that expands the table, after it did so); the world fed to "
+        "Model/Setup.v is what the real table parser returns for every declared product; the environment fed to "
+        "Model/Expand.v is the one the real setup left (also compared with the final environment of Model/Setup.v run on "
+        "the decisions the real resolver took)",
         "modelled, not verified: python re/str.split/strip on the stated line grammar; the version resolver "
         "(findProductFromVRO) enters only through those dependency lists and, in the replay, through the comparison of "
         "the real decisions with the explicit versions"]
@@ -985,7 +1002,7 @@ def run(ctx):
     setup_ctx(ctx)
     ctx.check_theorems()
     cases = corpus_cases()
-    n = ctx.size(640, 5000)
+    n = ctx.size(800, 6000)
     for k in range(n):
         cases.append(gen_shared_case(ctx.rng) if k % 16 == 7 else
                      gen_failed_optional_case(ctx.rng) if k % 8 == 3 else gen_case(ctx.rng))
